@@ -7022,7 +7022,7 @@ static PyObject* gges(PyObject *self, PyObject *args, PyObject *kwrds)
             if (!b) bc = (double *) calloc(n, sizeof(double));
             if (F) bwork = (int *) calloc(n, sizeof(int));
             if (!work || !ar || !ai || (!b && !bc) || (F && !bwork)){
-                free(work);  free(ar);  free(ai);  free(b);  free(bwork);
+                free(work);  free(ar);  free(ai);  free(bc);  free(bwork);
                 return PyErr_NoMemory();
             }
             py_select_gr = F;
